@@ -41,7 +41,7 @@ PLACES = {
 }
 TABLE = "10=a\n1112=ab\n20=b\n"
 KINDS = ["ins-explicit", "ins-lit1", "ins-lit2", "ins-lit3", "ins-const", "ins-imm-const", "ins-back", "ins-fwd",
-         "sh-later-label", "sh-earlier-label", "sh-later-eq", "sh-earlier-eq", "sh-scope-label", "sh-macro-label", "shw-later-label", "shw-later-eq",
+         "sh-later-label", "sh-earlier-label", "sh-later-eq", "sh-earlier-eq", "sh-scope-label", "sh-macro-label", "shw-later-label", "shw-later-eq", "org-shadowed", "reloc-shadowed",
          "db1", "dw2", "dl3", "ptr-back", "ascii", "text", "incbin0", "incbin1", "incbin5",
          "macro-narrow", "macro-wide", "for", "if", "block", "nop", "incips", "org", "org-zero", "org-here", "reloc-rom", "reloc-ram"]
 VARIABLE = {"ins-lit1", "ins-lit2", "ins-lit3", "ins-const", "ins-imm-const", "ins-back", "sh-later-label", "sh-earlier-label",
@@ -127,6 +127,11 @@ def stmt(kind, i, pl):
         return [("block", [lda("", S("shw")), ("label", "shw"), ("data", "db", [N(4)])])]
     if kind == "shw-later-eq":
         return [("block", [lda("", S("shw")), ("eq", "shw", N(0x12))])]
+    # a position directive whose operand means an outer constant while labels are computed and a block label at emission
+    if kind == "org-shadowed":
+        return [("block", [("org", S("shp")), ("data", "db", [N(6), N(7)]), ("label", "shp"), ("data", "db", [N(8)])])]
+    if kind == "reloc-shadowed":
+        return [("block", [("reloc", S("shq")), ("data", "db", [N(6), N(7)]), ("label", "shq"), ("data", "db", [N(8)])])]
     if kind == "sh-scope-label":
         return [("scope", f"ns{i}", [lda("", S("sha")), ("label", "sha"), ("data", "db", [N(2)])])]
     if kind == "sh-macro-label":
@@ -181,7 +186,7 @@ def build(busname, si, kinds):
     pl = PLACES[busname]
     start = pl["starts"][si]
     prog = [
-        ("const", "kc", N(0x1234)), ("const", "kb", N(0x12)), ("const", "sha", N(0x12)), ("const", "shw", N(0x123456)),
+        ("const", "kc", N(0x1234)), ("const", "kb", N(0x12)), ("const", "sha", N(0x12)), ("const", "shw", N(0x123456)), ("const", "shp", N(pl["other"] + 0x4000)), ("const", "shq", N(pl["rram"] + 0x800)),
         ("table", "t.tbl"),
         ("macro", "m2", ["pp"], [("ins", "lda", "", DIRECT, S("pp")), ("label", "ml"), ("data", "dw", [S("ml")])]),
         ("macro", "msh", [], [("ins", "lda", "", DIRECT, S("sha")), ("label", "sha"), ("data", "db", [N(3)])]),
